@@ -54,6 +54,12 @@ func c11Alphabet() []mOp {
 			al[i].R2 = [][]string{{"admin", "root"}, {"zed", "admin"}}
 		}
 	}
+	// batches whose new rules are never listed (always inside the guard): when the second old rule
+	// is missing the first one has already been replaced in its slot and is rolled back
+	al = append(al, mOp{Kind: "updatemany", Pt: "p", R1: [][]string{P[0], P[1]}, R2: [][]string{{"zed", "data1", "read"}, {"zed2", "data1", "read"}}},
+		mOp{Kind: "updatemany", Pt: "p", R1: [][]string{P[2], P[0]}, R2: [][]string{{"zed", "data1", "read"}, {"zed2", "data1", "read"}}},
+		mOp{Kind: "updatemany", Pt: "g", R1: [][]string{G[0], G[1]}, R2: [][]string{{"zed", "admin"}, {"zed2", "admin"}}},
+		mOp{Kind: "updatemany", Pt: "g", R1: [][]string{G[2], G[0]}, R2: [][]string{{"zed", "admin"}, {"zed2", "admin"}}})
 	al = append(al, mOp{Kind: "save"}, mOp{Kind: "load"})
 	return al
 }
@@ -179,6 +185,22 @@ func init() {
 						c.NonTrivial(id)
 						c.Count("failed-calls")
 					}
+					if (o.Kind == "updatemany" || o.Kind == "update") && (res == "ok0" || res == "falseerr") {
+						// a refused or failed update leaves the listing as it was - and the index as
+						// well: each listed rule of that type is still removed from its own slot
+						for xi, x := range cur[o.Pt] {
+							fops := append(append([]mOp(nil), ops...), mOp{Kind: "remove", Pt: o.Pt, R1: [][]string{x}})
+							fid := fmt.Sprintf("%s.rm%d", id, xi)
+							c.Case(fid, fmt.Sprintf("(cfg %s) (flags 1 %s %s) (content) (obs %s) (ops %s)",
+								strings.TrimSuffix(strings.TrimPrefix(c11Conf.Sx(), "("), ")"), B(an), wk, c11Obs,
+								strings.TrimSuffix(strings.TrimPrefix(opsSx(fops), "("), ")")))
+							fm := newMach(c11Conf, true, an, wk, nil)
+							for k, op := range fops {
+								c11Observe(c, fid, k, fm, fm.apply(op))
+							}
+							c.Count("follow-up-after-refused-update")
+						}
+					}
 					if fail == -1 {
 						key := m.listedKey()
 						if !seen[key] {
@@ -247,8 +269,16 @@ func init() {
 
 type c11FailingRM struct {
 	rbac.RoleManager
-	failAt int // the failAt-th AddLink from now fails (1-based); 0 = never
-	calls  int
+	failAt    int // the failAt-th AddLink from now fails (1-based); 0 = never
+	calls     int
+	failClear bool // Clear reports an error (and clears nothing)
+}
+
+func (f *c11FailingRM) Clear() error {
+	if f.failClear {
+		return errors.New("injected role-manager failure (Clear)")
+	}
+	return f.RoleManager.Clear()
 }
 
 func (f *c11FailingRM) AddLink(n1, n2 string, d ...string) error {
@@ -288,6 +318,60 @@ func c11RoleManagerFaults(c *Ctx) {
 			c.Direct(id, "LoadPolicy failed while rebuilding the links and left the role graph changed (F16)", fmt.Sprintf("links %s -> %s", before, after))
 		}
 		c.Count("rm-failure-during-load")
+	}
+	// a role manager whose Clear fails while LoadPolicy rebuilds the links: the error must
+	// surface and the enforcer must stay as it was
+	{
+		mm, _ := model.NewModelFromString(c11Conf.Text)
+		a := newRecAdapter()
+		a.Content = []prule{{"p", []string{"admin", "data1", "read"}}, {"g", []string{"alice", "admin"}}, {"g", []string{"admin", "root"}}}
+		e, _ := casbin.NewEnforcer(mm)
+		frm := &c11FailingRM{RoleManager: defaultrolemanager.NewRoleManagerImpl(10)}
+		e.SetRoleManager(frm)
+		e.SetAdapter(a)
+		if err := e.LoadPolicy(); err != nil {
+			c.Direct("c11.rm.clear", "initial load failed", "")
+		} else {
+			m := &mach{Conf: c11Conf, E: e, A: a}
+			before, lb := m.linksKey("g", c11Names(), nil), m.listedKey()
+			a.Content = []prule{{"p", []string{"admin", "data1", "read"}}, {"g", []string{"zed", "admin"}}, {"g", []string{"bob", "zed"}}}
+			frm.failClear = true
+			err := e.LoadPolicy()
+			frm.failClear = false
+			after := m.linksKey("g", c11Names(), nil)
+			if err == nil {
+				c.Direct("c11.rm.clear", "LoadPolicy did not report the error of the role manager's Clear", fmt.Sprintf("links %s -> %s listed %s -> %s", before, after, lb, m.listedKey()))
+			} else if after != before || m.listedKey() != lb {
+				c.Direct("c11.rm.clear", "LoadPolicy failed in the role manager's Clear and left the enforcer changed", fmt.Sprintf("links %s -> %s listed %s -> %s", before, after, lb, m.listedKey()))
+			}
+		}
+		c.Count("rm-clear-failure-during-load")
+	}
+	// an adapter that has the single-rule auto-save calls only (its batch calls answer the
+	// tolerated "not implemented"): a batch call must stay all-or-nothing when a store call fails
+	for _, kind := range []string{"removemany", "addmany", "addmanyex"} {
+		for _, pt := range []string{"p", "g"} {
+			for fail := 0; fail < 3; fail++ {
+				m := newMach(c11Conf, true, false, "none", nil)
+				m.A.BatchNotImpl = true
+				P := [][]string{{"alice", "data1", "read"}, {"admin", "data1", "write"}, {"bob", "data2", "read"}}
+				G := [][]string{{"alice", "admin"}, {"bob", "admin"}, {"admin", "root"}}
+				R := map[string][][]string{"p": P, "g": G}[pt]
+				if kind == "removemany" {
+					for _, r := range R {
+						m.apply(mOp{Kind: "add", Pt: pt, R1: [][]string{r}})
+					}
+				}
+				lb, kb := m.listedKey(), m.linksKey("g", c11Names(), nil)
+				m.apply(mOp{Kind: "failnext", K: fail})
+				res := m.apply(mOp{Kind: kind, Pt: pt, R1: R})
+				id := fmt.Sprintf("c11.nobatch.%s.%s.f%d", kind, pt, fail)
+				if (res == "falseerr" || res == "trueerr") && (m.listedKey() != lb || m.linksKey("g", c11Names(), nil) != kb) {
+					c.Direct(id, "a batch call on an adapter without batch calls returned an error but changed the enforcer", fmt.Sprintf("%s %s %v fail=%d: listed %s -> %s", kind, pt, R, fail, lb, m.listedKey()))
+				}
+				c.Count("adapter-without-batch-calls")
+			}
+		}
 	}
 	// two role definitions: the failure of EITHER manager must surface and roll back, whichever
 	// order the definitions are rebuilt in (Go map order: repeated trials)
